@@ -424,6 +424,10 @@ def install(plan, trace_fd):
     psutil.disk_partitions = disk_partitions
 
     def randint(a, b):
+        if not isinstance(a, int) or not isinstance(b, int):
+            raise TypeError("randint() arguments must be integers, got %r and %r" % (a, b))
+        if a > b:
+            raise ValueError("empty range for randint(%d, %d)" % (a, b))
         if S.rand_i < len(plan.randints):
             v = plan.randints[S.rand_i]
         else:
